@@ -59,12 +59,12 @@ theorem attempt_start (c : Consts) (s0 : Nat) :
 
 /-! ## every event of every run carries the closed-form window of its attempt -/
 
-theorem sgLoop_holds (c : Consts) (g thr m s0 : Nat) :
-    ∀ (script : List SStep) (k sb : Nat), Inv c s0 k sb → holds c s0 (sgLoop c g thr m k sb script) = true
+theorem sgLoop_holds (c : Consts) (sel : Nat → List Nat → C10.Out) (g thr m s0 : Nat) :
+    ∀ (script : List SStep) (k sb : Nat), Inv c s0 k sb → holds c s0 (sgLoop c sel g thr m k sb script) = true
   | [], k, sb, _ => by simp [sgLoop, holds, evOk, seenOk]
   | st :: rest, k, sb, h => by
     have hs := nextStart_eq h
-    have ih := sgLoop_holds c g thr m s0 rest (k + 1) (nextStart c k sb) (inv_next h)
+    have ih := sgLoop_holds c sel g thr m s0 rest (k + 1) (nextStart c k sb) (inv_next h)
     unfold holds at ih ⊢
     unfold sgLoop
     simp only [hs] at ih ⊢
@@ -100,9 +100,9 @@ theorem dkLoop_holds (c : Consts) (shuf : Nat → List Nat) (ops : List C09.Addr
     counter / waiter / announcer / attempt / done check, minority announcements, attempts this
     member is excluded from, late starts — every call of the loop carries the window blocks of
     its attempt, and the monitor accepts the run. -/
-theorem signing_run_holds (c : Consts) (g thr m s0 : Nat) (script : List SStep) :
-    holds c s0 (sgRun c g thr m s0 script) = true :=
-  sgLoop_holds c g thr m s0 script 0 s0 (Or.inl ⟨rfl, rfl⟩)
+theorem signing_run_holds (c : Consts) (sel : Nat → List Nat → C10.Out) (g thr m s0 : Nat)
+    (script : List SStep) : holds c s0 (sgRun c sel g thr m s0 script) = true :=
+  sgLoop_holds c sel g thr m s0 script 0 s0 (Or.inl ⟨rfl, rfl⟩)
 
 /-- C11 (DKG loop): same for every script, group layout, quorum and random source. -/
 theorem dkg_run_holds (c : Consts) (shuf : Nat → List Nat) (ops : List C09.Addr) (q m s0 : Nat)
@@ -110,29 +110,33 @@ theorem dkg_run_holds (c : Consts) (shuf : Nat → List Nat) (ops : List C09.Add
   dkLoop_holds c shuf ops q m s0 script 0 s0 (Or.inl ⟨rfl, rfl⟩)
 
 /-- the parameters handed to the attempt function are the window of attempt `n` -/
-theorem signing_attempt_params {c : Consts} {g thr m s0 : Nat} {script : List SStep}
+theorem signing_attempt_params {c : Consts} {sel : Nat → List Nat → C10.Out} {g thr m s0 : Nat} {script : List SStep}
     {n st to : Nat} {ex : List Nat} {seen : Option Nat}
-    (h : Ev.attempt n st to ex seen ∈ sgRun c g thr m s0 script) :
+    (h : Ev.attempt n st to ex seen ∈ sgRun c sel g thr m s0 script) :
     st = annEnd c s0 n ∧ to = timeoutOf c s0 n := by
-  have := List.all_eq_true.1 (signing_run_holds c g thr m s0 script) _ h
+  have := List.all_eq_true.1 (signing_run_holds c sel g thr m s0 script) _ h
   simp only [Bool.and_eq_true] at this
-  simpa [evOk] using this.1
+  have h' := this.1
+  simp only [evOk, Bool.and_eq_true, decide_eq_true_eq] at h'
+  exact h'.2
 
 theorem dkg_attempt_params {c : Consts} {shuf : Nat → List Nat} {ops : List C09.Addr} {q m s0 : Nat}
-    {script : List DStep} {n st to : Nat} {ex : List Nat} {seen : Option Nat}
-    (h : Ev.attempt n st to ex seen ∈ dkRun c shuf ops q m s0 script) :
+    {script : List DStep} {n st to : Nat} {ex : List Nat} {r : Nat}
+    (h : Ev.dattempt n st to ex r ∈ dkRun c shuf ops q m s0 script) :
     st = annEnd c s0 n ∧ to = timeoutOf c s0 n := by
   have := List.all_eq_true.1 (dkg_run_holds c shuf ops q m s0 script) _ h
   simp only [Bool.and_eq_true] at this
-  simpa [evOk] using this.1
+  have h' := this.1
+  simp only [evOk, Bool.and_eq_true, decide_eq_true_eq] at h'
+  exact h'.2
 
 /-- `windows_equal_across_members`: two members (different member index, different histories,
     even different views of who is ready) that run the loop from the same start block hand the same
     blocks to attempt `n`. -/
-theorem windows_equal_across_members {c : Consts} {g thr s0 : Nat} {m₁ m₂ : Nat}
+theorem windows_equal_across_members {c : Consts} {sel₁ sel₂ : Nat → List Nat → C10.Out} {g thr s0 : Nat} {m₁ m₂ : Nat}
     {script₁ script₂ : List SStep} {n st₁ to₁ st₂ to₂ : Nat} {ex₁ ex₂ : List Nat} {seen₁ seen₂ : Option Nat}
-    (h₁ : Ev.attempt n st₁ to₁ ex₁ seen₁ ∈ sgRun c g thr m₁ s0 script₁)
-    (h₂ : Ev.attempt n st₂ to₂ ex₂ seen₂ ∈ sgRun c g thr m₂ s0 script₂) :
+    (h₁ : Ev.attempt n st₁ to₁ ex₁ seen₁ ∈ sgRun c sel₁ g thr m₁ s0 script₁)
+    (h₂ : Ev.attempt n st₂ to₂ ex₂ seen₂ ∈ sgRun c sel₂ g thr m₂ s0 script₂) :
     st₁ = st₂ ∧ to₁ = to₂ := by
   obtain ⟨a, b⟩ := signing_attempt_params h₁
   obtain ⟨a', b'⟩ := signing_attempt_params h₂
@@ -140,9 +144,9 @@ theorem windows_equal_across_members {c : Consts} {g thr s0 : Nat} {m₁ m₂ : 
 
 theorem dkg_windows_equal_across_members {c : Consts} {shuf₁ shuf₂ : Nat → List Nat} {ops : List C09.Addr}
     {q s0 m₁ m₂ : Nat} {script₁ script₂ : List DStep} {n st₁ to₁ st₂ to₂ : Nat} {ex₁ ex₂ : List Nat}
-    {seen₁ seen₂ : Option Nat}
-    (h₁ : Ev.attempt n st₁ to₁ ex₁ seen₁ ∈ dkRun c shuf₁ ops q m₁ s0 script₁)
-    (h₂ : Ev.attempt n st₂ to₂ ex₂ seen₂ ∈ dkRun c shuf₂ ops q m₂ s0 script₂) :
+    {r₁ r₂ : Nat}
+    (h₁ : Ev.dattempt n st₁ to₁ ex₁ r₁ ∈ dkRun c shuf₁ ops q m₁ s0 script₁)
+    (h₂ : Ev.dattempt n st₂ to₂ ex₂ r₂ ∈ dkRun c shuf₂ ops q m₂ s0 script₂) :
     st₁ = st₂ ∧ to₁ = to₂ := by
   obtain ⟨a, b⟩ := dkg_attempt_params h₁
   obtain ⟨a', b'⟩ := dkg_attempt_params h₂
@@ -150,17 +154,17 @@ theorem dkg_windows_equal_across_members {c : Consts} {shuf₁ shuf₂ : Nat →
 
 /-- `participates_only_if_not_passed` (signing loop): the attempt function is called for attempt
     `n` only if the block the member observed is before the end of the announcement phase. -/
-theorem participates_only_if_not_passed {c : Consts} {g thr m s0 : Nat} {script : List SStep}
+theorem participates_only_if_not_passed {c : Consts} {sel : Nat → List Nat → C10.Out} {g thr m s0 : Nat} {script : List SStep}
     {n st to cur : Nat} {ex : List Nat}
-    (h : Ev.attempt n st to ex (some cur) ∈ sgRun c g thr m s0 script) : cur < annEnd c s0 n := by
-  have := List.all_eq_true.1 (signing_run_holds c g thr m s0 script) _ h
+    (h : Ev.attempt n st to ex (some cur) ∈ sgRun c sel g thr m s0 script) : cur < annEnd c s0 n := by
+  have := List.all_eq_true.1 (signing_run_holds c sel g thr m s0 script) _ h
   simp only [Bool.and_eq_true] at this
   simpa [seenOk] using this.2
 
 /-- …and it announces readiness only then. -/
-theorem announces_only_if_not_passed {c : Consts} {g thr m s0 : Nat} {script : List SStep} {n cur : Nat}
-    (h : Ev.announce n (some cur) ∈ sgRun c g thr m s0 script) : cur < annEnd c s0 n := by
-  have := List.all_eq_true.1 (signing_run_holds c g thr m s0 script) _ h
+theorem announces_only_if_not_passed {c : Consts} {sel : Nat → List Nat → C10.Out} {g thr m s0 : Nat} {script : List SStep} {n cur : Nat}
+    (h : Ev.announce n (some cur) ∈ sgRun c sel g thr m s0 script) : cur < annEnd c s0 n := by
+  have := List.all_eq_true.1 (signing_run_holds c sel g thr m s0 script) _ h
   simp only [Bool.and_eq_true] at this
   simpa [seenOk] using this.2
 
@@ -207,9 +211,125 @@ theorem windows_disjoint (c : Consts) (hd : 0 < c.delay) (ha : 0 < c.active) (hp
     exact Nat.add_le_add_left (Nat.mul_le_mul_right _ (by omega)) _
   omega
 
+/-! ## soundness of the observed non-overlap monitor -/
+
+/-- `noOverlap` accepts every event list that `holds` accepts (given the T1 facts about the
+    constants), hence every run of either loop. -/
+theorem noOverlap_of_holds (c : Consts) (hd : 0 < c.delay) (ha : 0 < c.active) (hp : 0 < c.protocol)
+    (hc : 0 < c.cooldown) (hm : c.maxBlocks = c.delay + c.active + c.protocol + c.cooldown)
+    (s0 : Nat) (evs : List Ev) (h : holds c s0 evs = true) : noOverlap c evs = true := by
+  unfold holds at h
+  rw [List.all_eq_true] at h
+  unfold noOverlap
+  rw [List.all_eq_true]
+  intro e he
+  cases e with
+  | wait n' b =>
+    have hb := h _ he
+    simp only [evOk, seenOk, Bool.and_true, decide_eq_true_eq] at hb
+    rw [List.all_eq_true]
+    intro p hp'
+    obtain ⟨ev, hev, htp⟩ := List.mem_filterMap.1 hp'
+    have hev' := h _ hev
+    have key : 1 ≤ p.1 ∧ p.2 = timeoutOf c s0 p.1 := by
+      cases ev <;> simp only [timeoutsOf] at htp <;> try cases htp
+      all_goals
+        simp only [evOk, Bool.and_eq_true, decide_eq_true_eq] at hev'
+      · exact ⟨hev'.1.1, hev'.1.2⟩
+      · exact ⟨hev'.1.1, hev'.1.2.2⟩
+      · exact ⟨hev'.1.1, hev'.1.2.2⟩
+    simp only [Bool.or_eq_true, decide_eq_true_eq]
+    rcases Nat.lt_or_ge p.1 n' with hlt | hge
+    · right
+      have := windows_disjoint c hd ha hp hc hm s0 p.1 n' key.1 hlt
+      rw [key.2, hb]
+      unfold annStart
+      omega
+    · left; exact hge
+  | _ => rfl
+
+theorem signing_run_noOverlap (sel : Nat → List Nat → C10.Out) (g thr m s0 : Nat) (script : List SStep) :
+    noOverlap signingConsts (sgRun signingConsts sel g thr m s0 script) = true :=
+  noOverlap_of_holds signingConsts signing_phases_positive.1 signing_phases_positive.2.1
+    signing_phases_positive.2.2.1 signing_phases_positive.2.2.2 signing_max_is_sum s0 _
+    (signing_run_holds _ sel g thr m s0 script)
+
+theorem dkg_run_noOverlap (shuf : Nat → List Nat) (ops : List C09.Addr) (q m s0 : Nat) (script : List DStep) :
+    noOverlap dkgConsts (dkRun dkgConsts shuf ops q m s0 script) = true :=
+  noOverlap_of_holds dkgConsts dkg_phases_positive.1 dkg_phases_positive.2.1
+    dkg_phases_positive.2.2.1 dkg_phases_positive.2.2.2 dkg_max_is_sum s0 _
+    (dkg_run_holds _ shuf ops q m s0 script)
+
+/-! ## the DKG loop enters an attempt only with quorum in *that* iteration's announcement -/
+
+theorem dkgEntryOk_shift (q k : Nat) (st : DStep) (rest : List DStep) (e : Ev)
+    (h : dkgEntryOk q (k + 1) rest e = true) : dkgEntryOk q k (st :: rest) e = true := by
+  cases e with
+  | dattempt n s t ex r =>
+    simp only [dkgEntryOk, Bool.and_eq_true, decide_eq_true_eq] at h ⊢
+    obtain ⟨hk, hrest⟩ := h
+    refine ⟨by omega, ?_⟩
+    have : n - k - 1 = (n - (k + 1) - 1) + 1 := by omega
+    rw [this, List.getElem?_cons_succ]
+    exact hrest
+  | _ => rfl
+
+theorem dkLoop_entry (c : Consts) (shuf : Nat → List Nat) (ops : List C09.Addr) (q m : Nat) :
+    ∀ (script : List DStep) (k sb : Nat),
+      (dkLoop c shuf ops q m k sb script).all (dkgEntryOk q k script) = true
+  | [], k, sb => by simp [dkLoop, dkgEntryOk]
+  | st :: rest, k, sb => by
+    have ih := dkLoop_entry c shuf ops q m rest (k + 1) (nextStart c k sb)
+    have ih' : (dkLoop c shuf ops q m (k + 1) (nextStart c k sb) rest).all (dkgEntryOk q k (st :: rest)) = true := by
+      rw [List.all_eq_true] at ih ⊢
+      exact fun e he => dkgEntryOk_shift q k st rest e (ih e he)
+    unfold dkLoop
+    simp only []
+    repeat' split
+    all_goals
+      simp only [List.all_cons, List.all_append, List.all_nil, ih', Bool.and_true]
+      simp only [dkgEntryOk, Bool.and_eq_true, decide_eq_true_eq, and_true, true_and, Bool.true_and,
+        Bool.and_self, and_self, Nat.add_sub_cancel_left, Nat.sub_self, List.getElem?_cons_zero,
+        Nat.lt_add_one, decide_true, show k + 1 - k - 1 = 0 by omega]
+      try omega
+
+/-- every call of the DKG attempt function for attempt `n` was preceded, in iteration `n` itself,
+    by an announcement that returned at least `quorum` ready members -/
+theorem dkg_attempt_has_quorum {c : Consts} {shuf : Nat → List Nat} {ops : List C09.Addr} {q m s0 : Nat}
+    {script : List DStep} {n st to r : Nat} {ex : List Nat}
+    (h : Ev.dattempt n st to ex r ∈ dkRun c shuf ops q m s0 script) :
+    ∃ s, script[n - 1]? = some s ∧ r = s.ready.length ∧ q ≤ s.ready.length := by
+  have := List.all_eq_true.1 (dkLoop_entry c shuf ops q m script 0 s0) _ h
+  simp only [dkgEntryOk, Bool.and_eq_true, decide_eq_true_eq, Nat.sub_zero] at this
+  obtain ⟨_, h2⟩ := this
+  split at h2
+  · rename_i s hs
+    simp only [Bool.and_eq_true, decide_eq_true_eq] at h2
+    exact ⟨s, hs, h2.1, h2.1 ▸ h2.2⟩
+  · cases h2
+
+/-- `dkg_participates_partial`.  The DKG loop never looks at the current block.  What keeps a member
+    that reaches attempt `n` after its announcement window has passed out of the attempt is the
+    announcer: its context is cancelled as soon as the block counter reports the (already reached)
+    announcement end block, and **assumption A-ann**: `Announce` on a context that is already done
+    returns no more than the caller itself (`s.ready.length ≤ 1`; the real announcer marks itself
+    ready and leaves its receive loop on `ctx.Done()`; it is timing dependent whether messages that
+    are already buffered are still read, which is why this is an assumption, not a theorem).  Under
+    A-ann and `quorum > 1` (the gap named in DESIGN §5) the attempt function is not called for `n`. -/
+theorem dkg_participates_partial {c : Consts} {shuf : Nat → List Nat} {ops : List C09.Addr} {q m s0 : Nat}
+    {script : List DStep} {n : Nat} {s : DStep} (hq : 1 < q) (hs : script[n - 1]? = some s)
+    (hpassed : s.ready.length ≤ 1) :
+    ∀ st to ex r, Ev.dattempt n st to ex r ∉ dkRun c shuf ops q m s0 script := by
+  intro st to ex r h
+  obtain ⟨s', hs', _, hq'⟩ := dkg_attempt_has_quorum h
+  rw [hs] at hs'
+  injection hs' with hs'
+  subst hs'
+  omega
+
 /-! ## non-vacuity -/
 
-example : sgRun signingConsts 3 2 1 100
+example : sgRun signingConsts (fun _ r => .ok ([1, 2, 3].filter (fun m => !r.contains m))) 3 2 1 100
     [⟨some 100, false, false, [1, 2], .attemptErr⟩, ⟨some 400, false, false, [1, 2], .success⟩,
      ⟨some 150, false, false, [1, 3], .success⟩]
     = [.cur 1, .wait 1 101, .asyncAnn 1 106, .announce 1 (some 100), .asyncTimeout 1 136, .listen 1 136 [1, 2],
